@@ -94,11 +94,15 @@ BUILTIN = {
 class TranslateError(Exception):
     pass
 
+LEAF_TEXT = {}       # lean name -> generated text of a leaf (as translated under its own flags)
+LEAF_EQ_CACHE = {}
+
 # --------------------------------------------------------------------------- translation unit
 
 class TU:
     def __init__(self, path, flags, cxx=False):
         self.path, self.flags = path, flags
+        self.userflags = []
         cmd = [CLANG + ("" if not cxx else ""), "-fsyntax-only", "-Xclang", "-ast-dump=json"] + flags + [path]
         if cxx:
             cmd = ["clang++-14" if CLANG == "clang-14" else CLANG, "-x", "c++", "-fsyntax-only", "-Xclang", "-ast-dump=json"] + flags + [path]
@@ -637,6 +641,8 @@ class Exec:
                 if lv[0] == "var":
                     # address of a scalar/vector local: promote it to a reference cell
                     return Val(ct, None, ("ref", lv[1], env))
+                if lv[0] == "globalelem" and all(i.e.is_const() and i.e.val == 0 for i in lv[2][-1:]):
+                    return Val(ct, None, ("global", lv[1], lv[2][:-1]))
                 raise TranslateError("address-of " + lv[0])
             if op == "*":
                 return self.load(self.lvalue(n, env), env)
@@ -803,6 +809,7 @@ class Exec:
             if lname == self.leanname: continue
             sig = self.sigs.get(lname)
             if sig is None: continue
+            if not self.same_leaf(ent): continue
             pspec = ent.get("params", {})
             ok = True; cargs = []; byname = {}
             for p, a in zip(params, args):
@@ -819,12 +826,13 @@ class Exec:
                         if spec.get("out"): continue
                         ct = a.ct.to
                         size = spec.get("bytes", None if isinstance(ct, (TInt, TVoid)) else ct.size())
-                        if size is None: ok = False; break
-                        cargs.append(self.atom(a.ptr[0].read(a.ptr[1], size, self.W), "a")); continue
+                        if size is None or a.ptr[1] < 0 or a.ptr[1] + size > a.ptr[0].size: ok = False; break
+                        cargs.append(("objread", a.ptr[0], a.ptr[1], size)); continue
                     ok = False; break
                 if a.e is None: ok = False; break
                 cargs.append(self.atom(a.e, "a"))
             if not ok: continue
+            cargs = [self.atom(c[1].read(c[2], c[3], self.W), "a") if isinstance(c, tuple) else c for c in cargs]
             outs = sig   # list of ("ret", w) | ("obj", pname, w) | ("ref", pname, w)
             ce = E("call", cargs, 0); ce.val = lname
             if len(outs) == 1:
@@ -850,6 +858,20 @@ class Exec:
                     cellenv[key] = Val(cellenv[key].ct, r)
             return retv
         return None
+
+    def same_leaf(self, ent):
+        """the registered leaf was translated under ent['flags']; it may be called from this TU only
+        if translating it under this TU's flags gives literally the same Lean text"""
+        if list(ent.get("flags", [])) == list(self.tu.userflags): return True
+        key = (self.tu.path, tuple(self.tu.userflags), ent["lean"], self.lane)
+        if key not in LEAF_EQ_CACHE:
+            try:
+                txt, _ = translate(self.tu, ent, self.registry, dict(self.sigs), lane=(ent.get("lane") if self.lane is not None else None), probe=True)
+            except TranslateError:
+                txt = None
+            ref = LEAF_TEXT.get(ent["lean"] + ("_lane" if self.lane is not None else ""))
+            LEAF_EQ_CACHE[key] = (txt is not None and txt == ref)
+        return LEAF_EQ_CACHE[key]
 
     def atom(self, e, hint):
         return e if e.op in ("var", "const") else self.fresh(e, hint)
@@ -1022,14 +1044,58 @@ def havoc(ex, env):
                 continue
             if tgt is None or tgt == "ref": continue
             # a pointer local that walks through an array: a window [-S, +S) of fresh bytes
-            S = slot.ct.to.size()
+            S = ex.windows.get(nm, slot.ct.to.size())
             win = Obj(nm + "_win", 2 * S, None)
             win.segs = [(0, S, var(nm + "_m1", 8 * S)), (S, S, var(nm + "_0", 8 * S))]
             ex.param_objs[win.name] = win
             env[nm] = Val(slot.ct, None, (win, S))
 
-def translate(tu, ent, registry, sigs, lane=None):
+def translate_table(tu, ent):
+    """a file-scope constant table as a list of little-endian row images"""
+    g = tu.globals.get(ent["table"])
+    if g is None: raise TranslateError("global %s not found" % ent["table"])
+    ct = tu.ctype(g["type"])
+    ex = Exec(tu, ent["table"], ent["lean"])
+    tab = ex.global_table(ent["table"])
+    el = ct
+    while isinstance(el, TArr): el = el.el
+    rows = []
+    for row in tab:
+        vals = row if isinstance(row, list) else [row]
+        img = 0
+        for i, v in enumerate(vals): img |= (v & ((1 << el.w) - 1)) << (el.w * i)
+        rows.append((img, el.w * len(vals)))
+    w = rows[0][1]
+    isconst = "const" in g["type"]["qualType"]
+    text = "def %s : List (BitVec %d) := [%s]\n\ndef %s.isConst : Bool := %s\n" % (ent["lean"], w, ", ".join("0x%x#%d" % (v, w) for v, _ in rows), ent["lean"], "true" if isconst else "false")
+    return text, {"lean": ent["lean"], "table": ent["table"], "rows": len(rows), "width": w, "const": isconst, "sig": [], "outs": [], "stages": [], "lets": [], "leak": [], "io": []}
+
+def translate_dispatch(ent, allmeta):
+    """a dispatcher over a family of size-specialised pieces: `f k junk key` calls the piece
+    specialised to key size `k` on the low `8k` bits of `key`"""
+    W = ent["width"]
+    lines = ["def %s (k : Nat) (junk : BitVec %d) (key : BitVec %d) : BitVec %d :=" % (ent["lean"], ent["junkwidth"], W, ent["outwidth"]), "  match k with"]
+    ks = sorted(int(k) for k in ent["cases"])
+    uses_junk = False
+    for k in ks:
+        m = allmeta.get(ent["cases"][str(k)])
+        if m is None: raise TranslateError("dispatch case %s was not translated" % ent["cases"][str(k)])
+        args = []
+        for nm, w in m["sig"]:
+            if nm.startswith("junk_"):
+                if w != ent["junkwidth"]: raise TranslateError("junk width")
+                args.append("junk"); uses_junk = True
+            else:
+                args.append("(BitVec.setWidth %d key)" % w)
+        pat = str(k) if k != ks[-1] else "_"
+        lines.append("  | %s => %s %s" % (pat, ent["cases"][str(k)], " ".join(args)))
+    text = "\n".join(lines) + "\n\ndef %s.usesJunk : Bool := %s\n" % (ent["lean"], "true" if uses_junk else "false")
+    return text, {"lean": ent["lean"], "dispatch": True, "uses_junk": uses_junk, "sig": [], "outs": [], "stages": [], "lets": [], "leak": [], "io": []}
+
+def translate(tu, ent, registry, sigs, lane=None, probe=False):
     """returns (lean text, meta)"""
+    if "table" in ent:
+        return translate_table(tu, ent)
     fname = ent["func"]; lname = ent["lean"] + ("_lane" if lane else "")
     f = tu.funcs.get(fname)
     if not has_body(f):
@@ -1037,6 +1103,7 @@ def translate(tu, ent, registry, sigs, lane=None):
     ex = Exec(tu, fname, lname, lane)
     ex.registry, ex.sigs = registry, sigs
     ex.assigned = assigned_names(f, set())
+    ex.windows = ent.get("windows", {})
     params = [c for c in f.get("inner", []) if c.get("kind") == "ParmVarDecl"]
     args, sig, objs = [], [], []
     pspec = ent.get("params", {})
@@ -1234,8 +1301,11 @@ def translate(tu, ent, registry, sigs, lane=None):
             "stages": [(s_, a_, w) for (s_, a_, w, _) in ex.stages],
             "lets": ex.lets, "leak": ex.leak, "io": ex.io, "junk_reads": junk_reads,
             "consts": {k: v for k, v in ((pn, ps.get("const")) for pn, ps in pspec.items()) if v is not None}}
-    sigs[lname] = [(o[0], o[1], o[2].w) for o in outs]
-    return "\n\n".join(lines) + "\n", meta
+    text = "\n\n".join(lines) + "\n"
+    if not probe:
+        sigs[lname] = [(o[0], o[1], o[2].w) for o in outs]
+        if piece is None: LEAF_TEXT[lname] = text
+    return text, meta
 
 def main():
     import argparse
@@ -1256,9 +1326,8 @@ def main():
     sigs = {}
     for mod in man["modules"]:
         for ent in mod["entries"]:
-            if ent.get("piece") is None:
-                key = (ent["file"], tuple(ent.get("flags", [])))
-                registries.setdefault(key, {}).setdefault(ent["func"], []).append(ent)
+            if ent.get("piece") is None and "func" in ent:
+                registries.setdefault(ent["file"], {}).setdefault(ent["func"], []).append(ent)
     for mod in man["modules"]:
         imports = mod.get("imports", [])
         texts = ["/- GENERATED by tools/c2lean.py from %s -- do not edit -/" % ", ".join(sorted(set(e["file"] for e in mod["entries"])))]
@@ -1270,14 +1339,18 @@ def main():
                 if key not in tus:
                     base = ["-std=c99", "-I" + os.path.join(a.repo, "include"), "-I" + os.path.join(a.repo, "src"), "-DRWEATHER_SKINNY_C_VERIF"]
                     tus[key] = TU(os.path.join(a.repo, ent["file"]), base + list(ent.get("flags", [])), cxx=ent["file"].endswith(".cpp"))
+                    tus[key].userflags = list(ent.get("flags", []))
                 tu = tus[key]
-                txt, meta = translate(tu, ent, registries.get(key, {}), sigs)
+                if "dispatch" in ent:
+                    txt, meta = translate_dispatch(ent, allmeta)
+                else:
+                    txt, meta = translate(tu, ent, registries.get(ent["file"], {}), sigs)
                 texts.append(txt); allmeta[meta["lean"]] = meta
                 if ent.get("lane"):
-                    txt2, meta2 = translate(tu, ent, registries.get(key, {}), sigs, lane=ent["lane"])
+                    txt2, meta2 = translate(tu, ent, registries.get(ent["file"], {}), sigs, lane=ent["lane"])
                     texts.append(txt2); allmeta[meta2["lean"]] = meta2
             except TranslateError as ex:
-                report["errors"].append({"lean": ent["lean"], "func": ent["func"], "file": ent["file"], "error": str(ex)})
+                report["errors"].append({"lean": ent["lean"], "func": ent.get("func", ent.get("table")), "file": ent["file"], "error": str(ex)})
                 texts.append("-- TRANSLATION FAILED for %s: %s\n" % (ent["lean"], str(ex).replace("\n", " ")[:300]))
         texts.append("end SkinnyVerif.Gen\n")
         out = "\n".join(texts)
